@@ -500,14 +500,15 @@ static rc::Gen<BnCase> genRecodeCase() {
     c.op = *rc::gen::element<int>(OP_NAF, OP_NAF, OP_JSF, OP_JSF, OP_COMBO);
     size_t maxbits = std::min<size_t>((size_t)BITLEN, 600);
     c.a = mkNum((uint32_t)BITLEN, *genValue(*range<size_t>(0, maxbits)), *genJunk());
-    c.a.cap = (uint32_t)std::min<long>(BITLEN, (long)(ndigits(from_le(c.a.val)) + *range<int>(0, 2)) * W + W);
+    // capacity: exactly the digits of the value (no room for the carry of a recoding step), or one to three spare digits
+    c.a.cap = (uint32_t)std::min<long>(BITLEN, (long)std::max<size_t>(1, ndigits(from_le(c.a.val)) + (size_t)*range<int>(0, 3)) * W);
     mpz_class A = from_le(c.a.val);
     if (c.op == OP_NAF) {
       c.p1 = *range<uint64_t>(2, 8);
       c.p2 = bitlen(A) + 1 + *rc::gen::weightedElement<int>({{6, 0}, {2, 1}, {2, 5}, {1, -1}});
     } else if (c.op == OP_JSF) {
       c.b = mkNum((uint32_t)BITLEN, *genValue(*range<size_t>(0, maxbits)), *genJunk());
-      c.b.cap = (uint32_t)std::min<long>(BITLEN, (long)(ndigits(from_le(c.b.val)) + *range<int>(0, 2)) * W + W);
+      c.b.cap = (uint32_t)std::min<long>(BITLEN, (long)std::max<size_t>(1, ndigits(from_le(c.b.val)) + (size_t)*range<int>(0, 3)) * W);
       c.p2 = 2 * (std::max(bitlen(A), bitlen(from_le(c.b.val))) + 1) + *rc::gen::weightedElement<int>({{6, 0}, {2, 1}, {2, 6}, {1, -1}});
     } else {
       size_t w = *range<size_t>(1, std::min<size_t>(9, (size_t)W)), cnt = *range<size_t>(1, 80);
